@@ -119,6 +119,7 @@ func IteU64(c bool, a, b uint64) uint64 {
 	}
 	return b
 }
+func DrbgStream(draws []uint64)       {}
 func IteBig(c bool, a, b *big.Int) *big.Int {
 	if c {
 		return a
